@@ -28,6 +28,11 @@ pub struct TfCase {
     /// once: a later, unrelated object must not see anything of it
     #[serde(default)]
     pub decoy: u8,
+    /// how the blocks of a slice-API call relate: 0 independent, 1 all equal, 2 each block is the ENCRYPTION of its
+    /// predecessor (reference model), 3 each block is the DECRYPTION of its predecessor, 4 A B A B .., 5 A A B B ..
+    /// (a per-call memo of the previous block, an "unchanged input" shortcut, lanes mixed up in a paired loop)
+    #[serde(default)]
+    pub layout: u8,
 }
 
 fn tweak_word() -> BoxedStrategy<u64> {
@@ -58,9 +63,9 @@ pub fn tf_strategy() -> BoxedStrategy<TfCase> {
             let per_2k = (2048 / n) as u16;
             (Just(bits), key_strategy(n), (tweak_word(), tweak_word()), bytes_n(n), prop::bool::weighted(0.1), prop_oneof![2 => Just((0u8, 0u8)), 1 => (0u8..8, 0u8..8)],
                 prop_oneof![8 => Just(0u16), 2 => 1u16..40, 2 => (1u16..4, 0u16..3).prop_map(move |(k, d)| (k * per_2k + d).saturating_sub(1))],
-                prop_oneof![3 => Just(0u8), 1 => 1u8..4])
+                prop_oneof![3 => Just(0u8), 1 => 1u8..4], prop_oneof![5 => Just(0u8), 1 => Just(1u8), 2 => Just(2u8), 2 => Just(3u8), 1 => Just(4u8), 1 => Just(5u8)])
         })
-        .prop_map(|(bits, key, tweak, block, via_new, offs, nblocks, decoy)| TfCase { bits, key, tweak: if via_new { (0, 0) } else { tweak }, block, via_new, offs, nblocks, decoy })
+        .prop_map(|(bits, key, tweak, block, via_new, offs, nblocks, decoy, layout)| TfCase { bits, key, tweak: if via_new { (0, 0) } else { tweak }, block, via_new, offs, nblocks, decoy, layout })
         .boxed()
 }
 
@@ -148,7 +153,22 @@ fn slice_check(prop: &str, c: &TfCase, info: &mut CaseInfo) -> Result<(), Fail> 
     let n = c.bits as usize / 8;
     let name = format!("Threefish{}", c.bits);
     let mut s = c.tweak.0 ^ 0x51ce;
-    let blocks: Vec<Vec<u8>> = (0..c.nblocks).map(|i| if i == 0 { c.block.0.clone() } else { crate::gen::expand(crate::engine::splitmix(&mut s), n, 0) }).collect();
+    let mut blocks: Vec<Vec<u8>> = (0..c.nblocks).map(|i| if i == 0 { c.block.0.clone() } else { crate::gen::expand(crate::engine::splitmix(&mut s), n, 0) }).collect();
+    let kw = words(&c.key.0);
+    for i in 1..blocks.len() {
+        let b = match c.layout {
+            1 => blocks[0].clone(),
+            2 => unwords(&threefish_encrypt(&kw, [c.tweak.0, c.tweak.1], &words(&blocks[i - 1]))),
+            3 => unwords(&threefish_decrypt(&kw, [c.tweak.0, c.tweak.1], &words(&blocks[i - 1]))),
+            4 => blocks[i % 2].clone(),
+            5 => blocks[(i / 2) % 2 * 2].clone(),
+            _ => continue,
+        };
+        blocks[i] = b;
+    }
+    info.label_if(c.layout == 2 && c.nblocks >= 2, "slice: each block is the encryption of its predecessor");
+    info.label_if(c.layout == 3 && c.nblocks >= 2, "slice: each block is the decryption of its predecessor");
+    info.label_if(matches!(c.layout, 1 | 4 | 5) && c.nblocks >= 2, "slice: repeated blocks");
     info.label("slice API (encrypt_blocks/decrypt_blocks)");
     info.label_if((c.nblocks as usize * n) % 2048 == 0, "slice is an exact multiple of 2 KiB");
     let r = guard(|| {
@@ -209,6 +229,8 @@ pub fn run_c09(ctx: &mut Ctx) {
     let n = ctx.count(250_000, 5_000_000);
     ctx.run("encrypt", n, tf_strategy(), c09_check);
     ctx.required_classes.push("constructed with new()".into());
+    ctx.required_classes.push("slice: each block is the encryption of its predecessor".into());
+    ctx.required_classes.push("slice: repeated blocks".into());
     for b in [256, 512, 1024] {
         ctx.required_classes.push(format!("Threefish{}", b));
     }
